@@ -258,7 +258,7 @@ def main():
         print(__doc__)
         sys.exit(2)
     relfile = a[0]
-    opts = dict(props=None, workers=6, max=200, seed=1, lines=None, list=False, keep_targets=False, retry=False, retry_from=None)
+    opts = dict(props=None, workers=6, max=200, seed=1, lines=None, list=False, keep_targets=False, retry=False, retry_from=None, ops=None)
     i = 1
     while i < len(a):
         k = a[i].lstrip("-").replace("-", "_")
@@ -282,6 +282,9 @@ def main():
         for (op, nl) in mutants_of_line(src[i]):
             if nl != src[i]:
                 muts.append((i, op, nl))
+    if opts["ops"]:
+        keep = tuple(opts["ops"].split(","))
+        muts = [m for m in muts if m[1].split(" ")[0].startswith(keep)]
     rnd = random.Random(int(opts["seed"]))
     rnd.shuffle(muts)
     total = len(muts)
